@@ -20,11 +20,9 @@ def fnat (j : Json) (k : String) : Except String Nat := do (← field j k).getNa
 /-- the class of the raised object: `kind` names the framework class, `sub` says the object is an instance of a
     project-defined subclass of it; the model classifies it with `ExcClass.kind` (isinstance semantics) -/
 def decClass (k : String) (sub : Bool) : Except String ExcClass :=
-  match k, sub with
-  | "exc", false => pure .exc
-  | "AbortTest", false => pure .abortTest | "AbortSuite", false => pure .abortSuite | "AbortAllTests", false => pure .abortAll
-  | "AbortTest", true => pure .subAbortTest | "AbortSuite", true => pure .subAbortSuite | "AbortAllTests", true => pure .subAbortAll
-  | k, _ => throw s!"unknown raise kind {k}"
+  match ExcClass.ofName k sub with
+  | some c => pure c
+  | none => throw s!"unknown raise kind {k} (sub={sub})"
 
 partial def decAct (j : Json) : Except String Act := do
   match (← (← field j "a").getStr?) with
